@@ -10,7 +10,7 @@ import c11_translate  # noqa: E402
 ID = "C11"
 THEOREMS = ["C11_payload_ops", "C11_element_ops", "C11_ops_complete", "C11_python_cmp_swap",
             "C11_fiber_add", "C11_fiber_mul", "C11_fiber_add_scalar", "C11_fiber_mul_scalar",
-            "C11_inplace_agree", "C11_fiber_history", "C11_active_range_not_read", "C11_fiber_chain_step", "C11_fiber_chain",
+            "C11_inplace_agree", "C11_fiber_history", "C11_active_range_not_read", "C11_fiber_chain_step", "C11_fiber_chain", "C11_chain_operands",
             "C11_fiber_imul_pinned_refuted", "C11_model_meets_spec"]
 COQ_IMPORTS = ("From FT Require Import Model.Base Model.Obs Model.C11PyOps Model.C11Fiber "
                "Gen.C11PayloadOps Gen.C11CoordPayloadOps Model.C11Check.")
@@ -26,7 +26,10 @@ RULE = ("case = (a) one operator application: in-place flag x operator (+ - * / 
         "reflected and in-place form on the same operands, observation = stored (coord, value) lists of the "
         "results and operands; (c) the same on fibers built with an explicit active_range and after a first "
         "in-place step a += c / a *= c (two-step history on one object; populate copies c's active range), "
-        "observation additionally = a after the first step and a.getActive(). distinct = distinct canonical JSON; non-trivial = operator case with a "
+        "observation additionally = a after the first step and a.getActive(); (d) chains of 1-3 value-returning / "
+        "in-place steps on an accumulator, observation = after EVERY step the accumulator, the object a0 and "
+        "every fiber operand of the chain (operands must keep their values), then (c), then a0 + first operand "
+        "evaluated again. distinct = distinct canonical JSON; non-trivial = operator case with a "
         "non-zero operand, fiber case with at least one stored element")
 TRUSTED = ["Coq 8.16.1 kernel (coqc; coqchk in the thorough tier); vm_compute used; native_compute not used",
            "Print Assumptions of every C11 theorem: Closed under the global context (no axioms)",
@@ -242,6 +245,8 @@ def gen_chain_case(rng):
         k = rng.choice(STEP_KINDS + ["SAddF", "SAddF", "SIAddF", "SMulS"])
         if i == 0 and rng.random() < 0.3:
             k = rng.choice(["SAddF", "SMulS", "SMulF"])      # a value-returning result enters the chain
+        if i > 0 and steps[-1]["k"] == "SAddF" and rng.random() < 0.5:
+            k = rng.choice(["SIMulS", "SIAddS", "SIAddF", "SIMulF"])   # ... and is then updated in place
         if k.endswith("F"):
             c = gen_afib(rng, shape_hi=hi, p_active=0.3)
             if a0["s"] is not None:
@@ -509,9 +514,12 @@ def run_fibc(c):
     import ftutil as U
 
     def chain(trace=None):
-        acc = mk_afib(c["a0"])
+        a0 = mk_afib(c["a0"])
+        ops = [mk_afib(st["c"]) for st in c["steps"] if "c" in st]     # the operand objects stay around
+        it = iter(ops)
+        acc = a0
         for st in c["steps"]:
-            x = mk_afib(st["c"]) if "c" in st else U.dress(st["v"])
+            x = next(it) if "c" in st else U.dress(st["v"])
             k = st["k"]
             if k in ("SAddF", "SAddS"):
                 acc = acc + x
@@ -524,10 +532,11 @@ def run_fibc(c):
             if U.MODE.get("touch"):
                 U.touch(acc)            # read-only queries between the steps (arms any memoisation)
             if trace is not None:
-                trace.append(U.snap(acc))
-        return acc
+                # accumulator, the object a0 and every fiber operand, after this step
+                trace.append([U.snap(acc), U.snap(a0), [U.snap(o) for o in ops]])
+        return acc, a0, ops
     trace = []
-    a = chain(trace)
+    a, a0, ops = chain(trace)
     act = a.getActive()
     decl = a.getRankAttrs().getShape()
     b = mk_afib(c["b"])
@@ -537,14 +546,15 @@ def run_fibc(c):
     if not c["withfiber"]:
         r2 = [U.snap((x * a) if c["mul"] else (x + a))]
     a_after = U.snap(a)
-    a2 = chain()
+    a2, _, _ = chain()
     a2_id = a2
     if c["mul"]:
         a2 *= x
     else:
         a2 += x
-    return [trace, [int(act[0]), int(act[1])], [] if decl is None else [int(decl)],
-            [U.snap(r1), r2, U.snap(a2_id), a2 is a2_id, a_after, U.snap(b)]]
+    fibobs = [U.snap(r1), r2, U.snap(a2_id), a2 is a2_id, a_after, U.snap(b)]
+    re = [U.snap(a0 + ops[0])] if ops else []          # a0 + c once more, at the very end
+    return [trace, [int(act[0]), int(act[1])], [] if decl is None else [int(decl)], fibobs, re]
 
 
 def run_impl(c):
